@@ -417,14 +417,32 @@ func TestVerifC11Lab(t *testing.T) {
 		cfg.QnameMinLevel = 0
 		// a long per-exchange timeout (far beyond the client's budget) separates "a straggler
 		// was interrupted when its lookup ended" from "it sat out its socket timeout"
-		longNet := r.Intn(3) == 0
+		// scenario templates besides the general mix (each aims at one mechanism of the
+		// property, none at a particular defect):
+		//   serialTiny - a starved attempt pool (1-2 slots) and clients that come one at a
+		//                time: nothing competes, so usable name servers must give the answer
+		//   flood      - many distinct names of one silent zone at once: the per-zone quota
+		//                sheds the excess; every limiter must be empty again afterwards
+		//   impatient  - clients whose budget ends while their exchange is in the air, one
+		//                after another, then a client with a normal budget: it must not pay
+		//                for the others' expiry
+		tmpl := ""
+		switch r.Intn(8) {
+		case 0:
+			tmpl = "serialTiny"
+		case 1:
+			tmpl = "flood"
+		case 2:
+			tmpl = "impatient"
+		}
+		longNet := r.Intn(3) == 0 && tmpl == ""
 		if longNet {
 			cfg.Timeout.Duration = 2 * time.Second
 		}
 		// template: every name has one name server that answers at once and one that stays
 		// silent, and the clients bring a long budget: the round is over in milliseconds, and
 		// whatever still holds a concurrency slot afterwards is a straggler nobody interrupted
-		quickWin := r.Intn(4) == 0
+		quickWin := r.Intn(4) == 0 && tmpl == ""
 		qt := vC11QT
 		if quickWin {
 			qt = 2 * time.Second
@@ -432,9 +450,12 @@ func TestVerifC11Lab(t *testing.T) {
 			cfg.QueryTimeout.Duration = qt
 			longNet = true
 		}
-		tiny := r.Intn(4) == 0 && !quickWin
+		tiny := (r.Intn(4) == 0 && !quickWin && tmpl == "") || tmpl == "serialTiny"
 		if tiny {
 			cfg.MaxConcurrentQueries = 1 + r.Intn(2) // forces capacity refusals
+		}
+		if tmpl == "flood" {
+			cfg.MaxConcurrentQueries = 64 // per-zone quota 16, global pool with room to spare
 		}
 		h := New(cfg)
 		remap := lab.remap
@@ -454,13 +475,13 @@ func TestVerifC11Lab(t *testing.T) {
 		// without the cache in front, duplicates meet in the resolver's own singleflight
 		// (groupLookup): followers of a leader whose client left must still be answered
 		handlers := []middleware.Handler{cm, h}
-		nocache := r.Intn(3) == 0
+		nocache := r.Intn(3) == 0 && tmpl != "flood"
 		if nocache {
 			handlers = []middleware.Handler{h}
 		}
 		// steady state: a resolver that has already talked to both name servers (their
 		// round-trip times are measured, so it races the two fastest instead of probing)
-		warmed := quickWin || r.Intn(2) == 0
+		warmed := quickWin || tmpl == "flood" || tmpl == "impatient" || r.Intn(2) == 0
 		if warmed {
 			for wq := 0; wq < 4; wq++ {
 				serial++
@@ -486,8 +507,18 @@ func TestVerifC11Lab(t *testing.T) {
 			start     time.Time
 			done      chan struct{}
 			cancelled bool
+			budget    time.Duration
+			serial    bool // the next client comes only after this one has its reply
+		}
+		newQ := func(s1, s2 string, expect int) *qrec {
+			serial++
+			return &qrec{name: fmt.Sprintf("%s-%s-%d.%s", s1, s2, serial, vC11LabZone), s1: s1, s2: s2, expect: expect,
+				cancelAt: -1, tr: &vC11LabTransport{}, done: make(chan struct{}), budget: qt}
 		}
 		nnames := 1 + r.Intn(3)
+		if tmpl != "" {
+			nnames = 0
+		}
 		// template: the singleflight leader's client leaves while the lookup is in the air
 		leaderLeaves := nocache && !tiny && !quickWin && r.Intn(2) == 0
 		var qs []*qrec
@@ -515,7 +546,7 @@ func TestVerifC11Lab(t *testing.T) {
 			}
 			dups := 1 + r.Intn(5)
 			for d := 0; d < dups; d++ {
-				q := &qrec{name: name, s1: s1, s2: s2, expect: expect, cancelAt: -1, tr: &vC11LabTransport{}, done: make(chan struct{})}
+				q := &qrec{name: name, s1: s1, s2: s2, expect: expect, cancelAt: -1, tr: &vC11LabTransport{}, done: make(chan struct{}), budget: qt}
 				if r.Intn(5) == 0 && !quickWin {
 					q.cancelAt = time.Duration(5+r.Intn(120)) * time.Millisecond
 					q.cancelled = true
@@ -529,7 +560,7 @@ func TestVerifC11Lab(t *testing.T) {
 			name := fmt.Sprintf("lag-lag-%d.%s", serial, vC11LabZone)
 			var cohort []*qrec
 			for d := 0; d < 3+r.Intn(3); d++ {
-				q := &qrec{name: name, s1: "lag", s2: "lag", expect: 1, cancelAt: -1, tr: &vC11LabTransport{}, done: make(chan struct{})}
+				q := &qrec{name: name, s1: "lag", s2: "lag", expect: 1, cancelAt: -1, tr: &vC11LabTransport{}, done: make(chan struct{}), budget: qt}
 				if d == 0 {
 					q.cancelAt = time.Duration(8+r.Intn(25)) * time.Millisecond
 					q.cancelled = true
@@ -538,8 +569,56 @@ func TestVerifC11Lab(t *testing.T) {
 			}
 			qs = append(cohort, qs...)
 		}
-		for _, q := range qs {
-			q := q
+		good := []string{"ok", "lag", "tcok"}
+		silent := []string{"drop", "late", "tcstall"}
+		switch tmpl {
+		case "serialTiny":
+			for i := 0; i < 3+r.Intn(4); i++ {
+				s1, s2 := good[r.Intn(3)], good[r.Intn(3)]
+				expect := 1
+				if r.Intn(4) == 0 {
+					s2 = vC11Scripts[r.Intn(len(vC11Scripts))]
+					if vC11ScriptGood(s2) != 1 {
+						expect = 0
+					}
+				}
+				q := newQ(s1, s2, expect)
+				q.serial = true
+				qs = append(qs, q)
+			}
+		case "flood":
+			for i := 0; i < 24+r.Intn(17); i++ {
+				qs = append(qs, newQ(silent[r.Intn(3)], silent[r.Intn(3)], 2))
+			}
+		case "impatient":
+			for i := 0; i < 6+r.Intn(4); i++ {
+				q := newQ("lag", "lag", 0)
+				q.budget = vC11NetTO / 4
+				q.serial = true
+				qs = append(qs, q)
+			}
+			for i := 0; i < 1+r.Intn(2); i++ {
+				q := newQ(good[r.Intn(2)], "lag", 1)
+				q.serial = true
+				qs = append(qs, q)
+			}
+		}
+		waitOne := func(i int, q *qrec, inconclusive *bool, goFail *string) {
+			select {
+			case <-q.done:
+			case <-time.After(10 * vC11QT):
+				// one more grace period tells a wedge from an overloaded machine
+				select {
+				case <-q.done:
+					*inconclusive = true
+				case <-time.After(20 * vC11QT):
+					*goFail = fmt.Sprintf("query %d (%s) did not return within 30x the query timeout", i, q.name)
+				}
+			}
+		}
+		inconclusive := false
+		goFail := ""
+		launch := func(q *qrec) {
 			parent, cancel := context.WithCancel(context.Background())
 			if q.cancelAt >= 0 {
 				time.AfterFunc(q.cancelAt, cancel)
@@ -551,33 +630,51 @@ func TestVerifC11Lab(t *testing.T) {
 			go func() {
 				defer close(q.done)
 				defer cancel()
-				ctx := contextutil.WithLazyDeadline(parent, q.start.Add(qt))
+				ctx := contextutil.WithLazyDeadline(parent, q.start.Add(q.budget))
 				defer ctx.Cancel()
 				ch := middleware.NewChain(handlers)
 				ch.Reset(q.tr, msg)
 				ch.Next(ctx)
 			}()
-			if r.Intn(3) == 0 && !leaderLeaves {
+		}
+		for qi, q := range qs {
+			launch(q)
+			if q.serial {
+				waitOne(qi, q, &inconclusive, &goFail)
+			}
+			if r.Intn(3) == 0 && !leaderLeaves && tmpl == "" {
 				time.Sleep(time.Duration(r.Intn(30)) * time.Millisecond)
 			}
 			if leaderLeaves && q == qs[0] {
 				time.Sleep(3 * time.Millisecond) // let it become the singleflight leader
 			}
 		}
-		inconclusive := false
-		goFail := ""
 		for i, q := range qs {
-			select {
-			case <-q.done:
-			case <-time.After(10 * vC11QT):
-				// one more grace period tells a wedge from an overloaded machine
-				select {
-				case <-q.done:
-					inconclusive = true
-				case <-time.After(20 * vC11QT):
-					goFail = fmt.Sprintf("query %d (%s) did not return within 30x the query timeout", i, q.name)
-				}
+			waitOne(i, q, &inconclusive, &goFail)
+		}
+		// retry in isolation: a client that stayed, asked for a name both of whose servers
+		// answer usably, and was failed at the end of its budget is either the victim of an
+		// overloaded machine or of a wedge. A wedge repeats when the same kind of query is
+		// asked again, alone; a hiccup does not.
+		retried := map[*qrec]bool{}
+		for _, q := range qs {
+			q.tr.mu.Lock()
+			failedLate := q.expect == 1 && !q.cancelled && q.tr.writes == 1 && q.tr.rcode == dns.RcodeServerFailure &&
+				q.tr.at.Sub(q.start) >= 3*q.budget/4
+			q.tr.mu.Unlock()
+			if !failedLate {
+				continue
 			}
+			recovered := false
+			for try := 0; try < 2 && !recovered; try++ {
+				again := newQ(q.s1, q.s2, 1)
+				launch(again)
+				waitOne(-1, again, &inconclusive, &goFail)
+				again.tr.mu.Lock()
+				recovered = again.tr.writes == 1 && again.tr.rcode == dns.RcodeSuccess
+				again.tr.mu.Unlock()
+			}
+			retried[q] = recovered
 		}
 		// limiter quiescence: once every client has its reply no lookup is running, so every
 		// concurrency slot must come back at once (stragglers are interrupted, not waited out)
@@ -633,9 +730,9 @@ func TestVerifC11Lab(t *testing.T) {
 			if writes == 0 && !q.cancelled && goFail == "" {
 				goFail = fmt.Sprintf("query %d (%s): no reply", i, q.name)
 			}
-			if q.expect == 1 && !q.cancelled && cls == 2 && lat >= int(3*vC11QT/4/time.Millisecond) {
-				// a healthy name failed only because the whole budget ran out: an overloaded
-				// machine (every scripted delay is far below the budget), not a verdict
+			if recovered, was := retried[q]; was && recovered {
+				// failed at the end of its budget, but the same query asked again alone is
+				// answered: an overloaded machine, not a verdict
 				inconclusive = true
 			}
 			if lat > int(10*vC11QT/time.Millisecond) {
@@ -671,6 +768,9 @@ func TestVerifC11Lab(t *testing.T) {
 		}
 		if warmed {
 			k += "-warmed"
+		}
+		if tmpl != "" {
+			k = "lab-" + tmpl
 		}
 		if slotsMs > int(vC11QT/time.Millisecond) && goFail == "" {
 			goFail = fmt.Sprintf("concurrency slots still held %d ms after the last client was answered", slotsMs)
